@@ -206,6 +206,7 @@ structure State where
   acts : Nat                      -- API requests / handler calls so far
   startupDone : Bool              -- the startup activity returned successfully
   startupFailed : Bool            -- the startup activity raised or was cancelled
+  startupRaised : Bool            -- the startup activity raised (a startup handler failed for good)
   cleanupBegun : Bool
   rootFailed : Bool               -- some root task ended with an exception
 
@@ -220,7 +221,7 @@ def init : State :=
     core := .waitingFlag, coreCreq := false, started := false, ready := false,
     sc := .init, rt := .waiting, stopFlagSet := false, waiter := true, orphans := 0, killed := false,
     orchErr := false, t0 := none, exitAt := none, result := none,
-    acts := 0, startupDone := false, startupFailed := false, cleanupBegun := false,
+    acts := 0, startupDone := false, startupFailed := false, startupRaised := false, cleanupBegun := false,
     rootFailed := false }
 
 inductive Label where
@@ -373,7 +374,7 @@ def step (cfg : Cfg) (s : State) : Label → Option State
     if s.rt ≠ .exited ∧ s.sc = .startup then
       match o with
       | .none => some { s with sc := .startupOk, startupDone := true }
-      | .failed => some { s with sc := .stopCore .failed, startupFailed := true }
+      | .failed => some { s with sc := .stopCore .failed, startupFailed := true, startupRaised := true }
       | .cancelled =>
         if s.creq (.root .startupCleanup) = true then
           some { s with sc := .stopCore .cancelled, startupFailed := true,
